@@ -37,6 +37,10 @@ CALLS = {
     'load': [('h', usort('Handle'))],
     'time': [('l', usort('Loop'))],
     'other': [('id', z3.IntSort())],
+    # desper.model: a world transform function applied to (handle, world); a type listed in a
+    # world description / a handle factory of a populator rule called with argument packs
+    'transform': [('f', usort('TransFn')), ('h', usort('WHandle')), ('w', usort('World'))],
+    'construct': [('t', usort('Ctor')), ('a', ArgPack.sort), ('k', KwPack.sort)],
 }
 
 DISP_FIELDS = dict(
